@@ -74,11 +74,15 @@ pub fn nested_join_u() -> Pipeline {
     p
 }
 
-/// `from u | join l=q (u.d == l.b)`: an open first input, the let-table as second input
+/// `from u | select {d} | join l=q (d == l.b)`: the let-table as second input; output columns d, a, b
+/// (distinct names: a sub-pipeline exposing the same name twice runs into a recorded defect, see C16)
 pub fn nested_join_let() -> Pipeline {
     Pipeline {
         src: Source::Table("u".into()),
-        steps: vec![Step::Join { side: Side::Inner, right: Source::Let(0), alias: Some("l".into()), cond: Cond::Expr(E::bin(Op::Eq, E::Col(1), E::Col(3))) }],
+        steps: vec![
+            Step::Select(vec![Item { alias: None, e: E::Col(1) }]),
+            Step::Join { side: Side::Inner, right: Source::Let(0), alias: Some("l".into()), cond: Cond::Expr(E::bin(Op::Eq, E::Col(0), E::Col(2))) },
+        ],
     }
 }
 
